@@ -248,6 +248,9 @@ def selectType (l : List (String × Except Err Ty)) : Except Err Ty :=
     `'    varargs'`, so a `<varargs/>` child is not recognised) -/
 def listChildTags : List String := ["callback", "array", "    varargs", "type"]
 
+/-- the element names `_parse_type` accepts; the children collected under a GLib.HashTable -/
+def typeChildTags : List String := ["callback", "array", "varargs", "type"]
+
 def seqExcept : List (Except Err Ty) → Except Err (List Ty)
   | [] => .ok []
   | .ok t :: rest => match seqExcept rest with
@@ -296,7 +299,8 @@ def parseTypeNode (ns : Str) (tag : String) (attrs : Attrs) (kidRes : List (Stri
           | .ok elem => .ok (.list ctype none (some name) elem)
         else .ok (.list ctype none (some name) tyAny)
       else if name = sHash then
-        match seqExcept ((kidRes.filter (fun p => p.1 = "type")).map (·.2)) with
+        -- `[child for child in typenode if child.tag in (callback, array, varargs, type)]`, in document order
+        match seqExcept ((kidRes.filter (fun p => typeChildTags.contains p.1)).map (·.2)) with
         | .error e => .error e
         | .ok subs => .ok (.map ctype none (subs.getD 0 tyAny) (subs.getD 1 tyAny))
       else .ok (typeFromName ns name ctype)
@@ -805,12 +809,6 @@ def parseCallable (ns : Str) (klass : Klass) (x : Xml) : Except Err Callable :=
 
 def qualify (ns n : Str) : Str := if n.contains '.' then n else ns ++ '.' :: n
 
-/-- written as a `<type>` element -/
-def isTypeElem : Ty → Bool
-  | .array .. => false
-  | .varargs => false
-  | _ => true
-
 def canonTy : Ty → Ty
   | .unknown => .unknown
   | .varargs => .varargs
@@ -833,7 +831,7 @@ def wfTy (ns : Str) : Ty → Bool
     | .foreign _ => false          -- the reader does not look at `foreign` on <type>
   | .array _ _ a _ _ _ e => (a.isNone || validArrayTypes.contains (a.getD [])) && wfTy ns e
   | .list _ _ n e => (n == some sList || n == some sSList) && e != .varargs && wfTy ns e
-  | .map _ _ k v => isTypeElem k && isTypeElem v && wfTy ns k && wfTy ns v
+  | .map _ _ k v => wfTy ns k && wfTy ns v
 
 /-- the top-level array length is resolved in a second pass: `_parse_type_simple` alone leaves it unset -/
 def dropLen : Ty → Ty
@@ -1018,24 +1016,28 @@ def lengthUpd (names : List (Option Str)) (node : Xml) (m : Member) : Except Err
       | none => .ok m
       | some typenode => if (attrGet "length" typenode.attrs).isSome then .error .attributeError else .ok m
 
-/-- `for i, fieldnode in enumerate(self._find_children(node, 'field')): field = compound.fields[i]; …`:
-    the i-th `<field>` ELEMENT is paired with the i-th entry of `compound.fields` -/
+/-- `for fieldnode, field in zip(self._find_field_nodes(node), compound.fields): if fieldnode.tag == 'field': …`:
+    every member ELEMENT (`<field>`, `<record>`, `<union>`, `<callback>`) is paired with the `compound.fields`
+    entry `_parse_fields` made from it; only `<field>` elements carry a type (`zip` stops at the shorter list) -/
 def lengthPass (names : List (Option Str)) : List Xml → List Member → Except Err (List Member)
   | [], ms => .ok ms
-  | _ :: _, [] => .error .indexError
+  | _ :: _, [] => .ok []
   | n :: ns, m :: ms =>
-    match lengthUpd names n m with
+    match (if n.tag = "field" then lengthUpd names n m else .ok m) with
     | .error e => .error e
     | .ok m' => match lengthPass names ns ms with
       | .error e => .error e
       | .ok rest => .ok (m' :: rest)
 
+/-- `GIRParser._find_field_nodes(node)` -/
+def memberNodes (kids : List Xml) : List Xml := kids.filter (fun x => memberTags.contains x.tag)
+
 /-- the member-related part of `GIRParser._parse_compound(cls, node)` on the children of `node`:
     `compound.fields.extend(self._parse_fields(node, compound))`, then the array-length loop -/
 def parseMembers (ns : Str) (kids : List Xml) : Except Err (List Member) :=
-  match mapMExcept (parseMember ns) (kids.filter (fun x => memberTags.contains x.tag)) with
+  match mapMExcept (parseMember ns) (memberNodes kids) with
   | .error e => .error e
-  | .ok ms => lengthPass (memberNames ms) (findAllTag "field" kids) ms
+  | .ok ms => lengthPass (memberNames ms) (memberNodes kids) ms
 
 def memberDropLen (m : Member) : Member :=
   match m.body with
